@@ -262,7 +262,7 @@ func main() {
 				fmt.Fprintf(out, "B %s\n", strings.Join(parts, "|"))
 				out.Flush()
 			case "Q":
-				if in.db.VerifCacheQuiesce(5 * time.Second) {
+				if in.db.VerifCacheQuiesce(ts(5 * time.Second)) {
 					fmt.Fprintf(out, "Q ok\n")
 				} else {
 					fmt.Fprintf(out, "Q HUNG\n")
